@@ -347,6 +347,7 @@ class Table:
         rebound = {}      # param -> first source position where the local name is rebound
         forwards = {}     # param -> (target, q)
         n_super = 0
+        super_calls = []
         for n in ast.walk(init):
             if isinstance(n, (ast.FunctionDef, ast.Lambda)) and n is not init:
                 continue
@@ -380,6 +381,9 @@ class Table:
                 if isinstance(f, ast.Attribute) and f.attr == "__init__":
                     n_super += 1
                     target, args = self._super_target(k, f, n)
+                    fwd_here = set(a.id for a in args if isinstance(a, ast.Name)) | set(
+                        kw.value.id for kw in n.keywords if isinstance(kw.value, ast.Name))
+                    super_calls.append((target, (n.lineno, n.col_offset), fwd_here))
                     for i, arg in enumerate(args):
                         if isinstance(arg, ast.Starred):
                             raise Unsupported("%s.%s.__init__: *args in parent call" % k)
@@ -400,7 +404,15 @@ class Table:
             if st is not None:
                 isreb = (len(st) == 1 and st[0] is not None and p in rebound
                          and rebound[p] < (st[0].lineno, st[0].col_offset))
-                if len(st) == 1 and isinstance(st[0], ast.Name) and st[0].id == p and not isreb:
+                over = None
+                if len(st) == 1 and st[0] is not None:
+                    for target, pos, fwd_here in super_calls:
+                        if target[0] == "cls" and (st[0].lineno, st[0].col_offset) < pos \
+                                and p not in fwd_here and p in self._attrs_stored_by_init(target[1:]):
+                            over = self.key[target[1:]]
+                if over is not None:
+                    out.append((p, ("SM", "overwritten by %s.__init__" % over)))
+                elif len(st) == 1 and isinstance(st[0], ast.Name) and st[0].id == p and not isreb:
                     out.append((p, ("SV",)))
                 else:
                     txt = " | ".join("?" if v is None else ast.unparse(v) for v in st)
@@ -424,6 +436,28 @@ class Table:
             out.append(("*", ("SN",)))
         if a.kwarg:
             out.append(("**", ("SN",)))
+        return out
+
+    def _attrs_stored_by_init(self, k, seen=()):
+        """Attribute names assigned on self by the __init__ of class k and, through its parent
+        calls, by the constructors above it."""
+        if k in seen:
+            return set()
+        out = set()
+        for s in self.allc[k]["node"].body:
+            if isinstance(s, ast.FunctionDef) and s.name == "__init__":
+                for n in ast.walk(s):
+                    if isinstance(n, ast.Attribute) and isinstance(n.ctx, ast.Store) and \
+                            isinstance(n.value, ast.Name) and n.value.id == "self":
+                        out.add(n.attr)
+                    if isinstance(n, ast.Call) and isinstance(n.func, ast.Attribute) and n.func.attr == "__init__":
+                        target, _ = self._super_target(k, n.func, n)
+                        if target[0] == "cls":
+                            out |= self._attrs_stored_by_init(target[1:], seen + (k,))
+                return out
+        r = self.find_method(k, "__init__", after=k)
+        if r is not None and r[0] != "ext":
+            return self._attrs_stored_by_init(r[0], seen + (k,))
         return out
 
     def _super_target(self, k, f, call):
